@@ -325,6 +325,25 @@ Definition sorted_names (l : list bytes) : list bytes :=
   map fst (sort_ents (map (fun n => (n, tt)) l)).
 
 (* ---- copier.copy / copyDirectory ---- *)
+Fixpoint each_m (g : bytes -> M unit) (ns : list bytes) : M unit :=
+  match ns with
+  | [] => ret tt
+  | n :: rest => g n ;;; each_m g rest
+  end.
+
+(* copyFileInfo + copyXAttrs *)
+Definition finish_meta (c : ctx) (o : copts) (fi : inode) (src target : bytes) : M unit :=
+  copy_file_info c o fi target ;;; copy_xattrs c target src.
+
+(* the target Lstat, removeTargetIfNeeded, forgetLinkSources + ensureEmptyFileTarget *)
+Definition prep_target (c : ctx) (o : copts) (target : bytes) (fi : inode) : M (option (N * inode)) :=
+  tfi <~ lstat_opt_nd c target ;;
+  remove_target_if_needed c o target fi tfi ;;;
+  (if kind_is_dir fi then ret tt
+   else (match tfi with Some _ => forget_links target | None => ret tt end) ;;;
+        ensure_empty_file_target c target) ;;;
+  ret tfi.
+
 Fixpoint copy_rec (fuel : nat) (c : ctx) (o : copts) (src target : bytes) (overwrite : bool) : M unit :=
   match fuel with
   | O => fail E_FUEL
@@ -333,11 +352,7 @@ Fixpoint copy_rec (fuel : nat) (c : ctx) (o : copts) (src target : bytes) (overw
     match r with
     | RStat ino fi =>
       log_read ino ;;;
-      tfi <~ lstat_opt_nd c target ;;
-      remove_target_if_needed c o target fi tfi ;;;
-      (if kind_is_dir fi then ret tt
-       else (match tfi with Some _ => forget_links target | None => ret tt end) ;;;
-            ensure_empty_file_target c target) ;;;
+      tfi <~ prep_target c o target fi ;;
       match i_kind fi with
       | KDir _ _ =>
         created <~ copy_directory_only c target fi overwrite ;;
@@ -346,13 +361,8 @@ Fixpoint copy_rec (fuel : nat) (c : ctx) (o : copts) (src target : bytes) (overw
         | RNames names =>
           f1 <~ get_fs ;;
           (match resolve_ino c f1 src true with inl di => log_read di | inr _ => ret tt end) ;;;
-          (fix each (ns : list bytes) : M unit :=
-             match ns with
-             | [] => ret tt
-             | n :: rest => copy_rec k c o (join2 src n) (join2 target n) true ;;; each rest
-             end) (sorted_names names) ;;;
-          (if overwrite || created then
-             copy_file_info c o fi target ;;; copy_xattrs c target src
+          each_m (fun n => copy_rec k c o (join2 src n) (join2 target n) true) (sorted_names names) ;;;
+          (if overwrite || created then finish_meta c o fi src target
            else match tfi with
                 | Some _ => copy_file_timestamp c o fi target
                 | None => ret tt
@@ -361,18 +371,18 @@ Fixpoint copy_rec (fuel : nat) (c : ctx) (o : copts) (src target : bytes) (overw
         end
       | KFile _ =>
         copy_regular c src target ino ;;;
-        copy_file_info c o fi target ;;; copy_xattrs c target src
+        finish_meta c o fi src target
       | KLink _ =>
         l <~ sys (fun f => sys_readlink c f src) ;;
         match l with
         | RBytes t =>
           r2 <~ sys (fun f => sys_symlink c f t target) ;; expect_ok r2 ;;;
-          copy_file_info c o fi target ;;; copy_xattrs c target src
+          finish_meta c o fi src target
         | _ => fail E_SYS
         end
       | KSpecial _ _ =>
         copy_device c target fi ;;;
-        copy_file_info c o fi target ;;; copy_xattrs c target src
+        finish_meta c o fi src target
       end
     | _ => fail E_SYS
     end
